@@ -50,6 +50,16 @@ def entry_rules(entry):
     return None
 
 
+def writable(entry):
+    ty = entry["ty"]
+    if "Buffer" in ty:
+        t = ty["Buffer"]["ty"]
+        return isinstance(t, dict) and "Storage" in t and not t["Storage"]["read_only"]
+    if "StorageTexture" in ty:
+        return ty["StorageTexture"]["access"] != "read-only"
+    return False
+
+
 def main(tier, replay, t0):
     camp = probes.campaign("bind", tier)
     viol = []
@@ -97,6 +107,15 @@ def main(tier, replay, t0):
                 if en["binding"] in seen:
                     why = "ConflictBinding"
                 seen.add(en["binding"])
+                if g is not None and writable(en) and \
+                        (probes.vis_bits(en["visibility"]) & 1) and \
+                        not (c.truth["stage_bits"].get(g.name, 0) & 1):
+                    viol.append(Violation("needs-vertex-writable-storage", cls,
+                                          "writable storage binding %s is made visible to the "
+                                          "vertex stage although no vertex entry point uses it: "
+                                          "wgpu rejects the layout unless the optional feature "
+                                          "VERTEX_WRITABLE_STORAGE is enabled" % g.decl(),
+                                          dict(base, entry=en, group=gi)))
                 if why:
                     viol.append(Violation("bgl-entry-rejected", cls,
                                           "wgpu rejects this layout entry when the bind group "
